@@ -9,6 +9,7 @@ Every run regenerates the SMT encoding from /repo's current working tree: the ha
 sources under harness/<Cxx>/ are overlaid into the package under test, go/ssa is built from
 the current sources and the symbolic executor (engine/, binary bin/gosmt) interprets it.
 """
+import threading
 import json, os, re, subprocess, sys, time, hashlib, shutil, concurrent.futures as cf
 
 ROOT = os.path.dirname(os.path.abspath(__file__))
@@ -62,8 +63,12 @@ def gen_prims(workdir, gopkg, native):
     tmpl = "prims_native.go.tmpl" if native else "prims.go.tmpl"
     src = open(os.path.join(ROOT, "harness", tmpl)).read().replace("package PKG", "package " + gopkg)
     out = os.path.join(workdir, ("native_" if native else "") + "prims_" + gopkg + ".go")
-    with open(out, "w") as f:
+    # jobs of one check run in parallel and may share a package: never let another job see a half
+    # written file (write aside, rename)
+    tmp = "%s.%d.%d.tmp" % (out, os.getpid(), threading.get_ident())
+    with open(tmp, "w") as f:
         f.write(src)
+    os.replace(tmp, out)
     return out
 
 
